@@ -64,4 +64,14 @@ def openEnvelope (cd : Codec) (f : Bytes) : Option Bytes :=
     | none => none
     | some b => if b.length = declared then some b else none   -- "unpacked size mismatch"
 
+/-- allocation measure of the compressed receive case: Decompress* does `dst.Allocate(lenUnpacked)` with the
+    DECLARED length before a single byte is unpacked (for LZW before anything else is looked at) -/
+def openAlloc (f : Bytes) : Nat :=
+  if f.length < 10 then 0
+  else if f.length < zSkipBytes + 4 then 0
+  else beVal ((f.drop zSkipBytes).take 4)
+
+/-- the proportionality budget used by the harness monitor: 16 bytes per input byte plus 32 MiB -/
+def allocBudget (inputLen : Nat) : Nat := 16 * inputLen + 32 * 2 ^ 20
+
 end ErgoVerif.Envelope
